@@ -216,6 +216,38 @@ def row_scope(ctx, obs, rule='ROW'):
                 k.arg == 'axis' and isinstance(k.value, ast.Constant) and k.value.value == 1 for k in c.keywords)
             obs.check(bool(per_row), rule, q, 'ranks are computed per RDM',
                       f'`{norm(c)[:70]}` ranks across the whole stack', '', where(prog, f, c))
+    # each RDM is ranked among ITS OWN non-missing entries: a missing-entry mask taken from one fixed row must not select the
+    # columns of the whole stack
+    row_masks = {}
+    for n in ast.walk(f.node):
+        if isinstance(n, ast.Assign) and isinstance(n.targets[0], ast.Name):
+            for c in ast.walk(n.value):
+                if isinstance(c, ast.Call) and _leaf(c.func) in ('isnan', 'isfinite') and c.args and isinstance(c.args[0], ast.Subscript) \
+                        and isinstance(c.args[0].slice, ast.Constant) and isinstance(c.args[0].slice.value, int):
+                    row_masks[n.targets[0].id] = n
+    changed = True
+    while changed:
+        changed = False
+        for n in ast.walk(f.node):
+            if isinstance(n, ast.Assign) and isinstance(n.targets[0], ast.Name) and n.targets[0].id not in row_masks \
+                    and isinstance(n.value, (ast.UnaryOp, ast.Name)) and any(isinstance(x, ast.Name) and x.id in row_masks for x in ast.walk(n.value)):
+                row_masks[n.targets[0].id] = n
+                changed = True
+    bad_use = None
+    for n in ast.walk(f.node):
+        if isinstance(n, ast.Subscript) and isinstance(n.slice, ast.Tuple) and len(n.slice.elts) >= 2 \
+                and isinstance(n.slice.elts[0], ast.Slice) and n.slice.elts[0].lower is None and n.slice.elts[0].upper is None \
+                and any(isinstance(x, ast.Name) and x.id in row_masks for x in ast.walk(n.slice.elts[1])):
+            bad_use = n
+            break
+    if bad_use is not None:
+        obs.bad('OWNMASK', q, 'each RDM is ranked among its own non-missing entries',
+                f'`{norm(bad_use)[:60]}` selects the columns of every RDM with a mask computed from one fixed row '
+                f'(`{norm(row_masks[[x.id for x in ast.walk(bad_use.slice.elts[1]) if isinstance(x, ast.Name) and x.id in row_masks][0]])[:60]}`): '
+                f'entries present in a later RDM but missing in that row are dropped', where(prog, f, bad_use))
+    else:
+        obs.ok('OWNMASK', q, 'each RDM is ranked among its own non-missing entries', 'no fixed-row mask applied to the stack',
+               where(prog, f, f.node))
     q = T + 'geodesic_transform'
     f = prog.func(q)
     for c in ast.walk(f.node):
